@@ -115,6 +115,26 @@ def logged_debouncer_class():
     return _LOGGED["cls"]
 
 
+def observed_trick_class():
+    """Subclass of the real AutoRestartTrick that logs entry / exit of _restart_process (observation only)."""
+    if "trick" not in _LOGGED:
+        base = wd.mod("watchdog.tricks").AutoRestartTrick
+
+        class AutoRestartTrickObserved(base):
+            def _restart_process(self):
+                s = vsched.S
+                me = s.me()
+                s.log.append(("rs_enter", role(me), me.tid))
+                try:
+                    return super()._restart_process()
+                finally:
+                    if not s.aborting:
+                        s.log.append(("rs_exit", role(me), me.tid))
+
+        _LOGGED["trick"] = AutoRestartTrickObserved
+    return _LOGGED["trick"]
+
+
 def role(vt):
     obj = vt.obj
     base = wd.mod("watchdog.utils").BaseThread
@@ -168,7 +188,8 @@ class C18Harness(ex.Harness):
         return repr(([e for e in res.log if e[0] not in ("dwait", "dwoke", "dnotify")], res.abort and res.abort[0],
                      [(e[0], e[1]) for e in res.errors]))
 
-    def common(self, res, out, deadlock_classifier):
+    def common(self, res, out, deadlock_classifier, ctx=None, horizon_fp=None):
+        # ctx: root-cause prefix ("<family>: <overlap>: "); with it all exceptions share one fingerprint
         """Verdicts every family shares; the family decides what a deadlock means."""
         fam = self.family
         if res.harness_error:
@@ -184,18 +205,20 @@ class C18Harness(ex.Harness):
                     fp = f"{fam}: deadlock " + " / ".join(where)
                 out.append(dict(kind="deadlock", fp=fp, msg=f"deadlock: {info}; program={self.name}; log={log}"))
             elif kind == "horizon":
-                out.append(dict(kind="horizon", fp=f"{fam}: step/time horizon exceeded",
+                out.append(dict(kind="horizon", fp=horizon_fp or f"{fam}: step/time horizon exceeded",
                                 msg=f"horizon exceeded: {info}; program={self.name}; log={log[-40:]}"))
         for name, et, msg, funcs in res.errors:
-            top = funcs[-1] if funcs else "?"
-            out.append(dict(kind="thread-error", fp=f"{fam}: {ex._role(name)} thread died with {et} in {top}",
+            top = next((f for f in reversed(funcs) if not f.startswith("vsched.py")), "?")
+            out.append(dict(kind="thread-error", fp=(ctx + "exception in a trick call or helper thread") if ctx else f"{fam}: thread died with {et} in {top}",
                             msg=f"thread {name} died: {et}: {msg} at {funcs[-5:]}; program={self.name}; log={log}"))
         for e in log:
             if e[0] == "liberror":
-                out.append(dict(kind="lib-error", fp=f"{fam}: exception logged by {e[1].rsplit('.', 1)[-1]} ({e[3]})",
+                out.append(dict(kind="lib-error", fp=(ctx + "exception in a trick call or helper thread") if ctx
+                                else f"{fam}: exception logged by {e[1].rsplit('.', 1)[-1]} ({e[3]}: {e[4]})",
                                 msg=f"{e[1]}: {e[2]}: {e[3]}: {e[4]}; program={self.name}; log={log}"))
             elif e[0] == "exc":
-                out.append(dict(kind="call-raised", fp=f"{fam}: {e[1]} raised {e[2]}",
+                out.append(dict(kind="call-raised", fp=(ctx + "exception in a trick call or helper thread") if ctx
+                                else f"{fam}: {e[1]} raised {e[2]} ({e[3][:60]})",
                                 msg=f"{e[1]} raised {e[2]}: {e[3]}; program={self.name}; log={log}"))
 
 
@@ -223,6 +246,8 @@ class DebHarness(C18Harness):
         self.main_first = main_first     # event 0 is handed in by main right after start()
         self.name = (f"deb ev={','.join(map(str, self.gaps)) or '-'} stop={':'.join(map(str, self.mode))}"
                      + (" mainfirst" if main_first else ""))
+        if self.mode[0] == "stopper":    # 4 threads: delay bounding (every departure from the default costs 1)
+            self.sched_kwargs = dict(max_steps=8000, switch_cost=1)
 
     def body(self, s):
         events = wd.mod("watchdog.events")
@@ -395,8 +420,9 @@ def deb_harnesses(tier):
 SHORT = 0.15       # short child lifetime: the watcher (period 0.1) notices the exit at spawn + 0.2
 DEB = 0.2          # debounce interval of family (b): a batch of an event at t fires at t + 0.2
 KA = 0.5           # kill_after: two poll rounds of 0.25 before SIGKILL
-HORIZON = 3.0
+HORIZON = 1.6      # virtual seconds after start at which a quiescence-mode program is inspected (all activity ends by 1.4)
 MARGIN = 0.3
+AFTER = 1.0        # virtual seconds the program is observed after stop() returned
 
 
 class ARHarness(C18Harness):
@@ -417,7 +443,7 @@ class ARHarness(C18Harness):
         L = s.log.append
         tab = procsim.Table(s, s.log, lifetimes=self.life, ignores=(self.ign,), role=role)
         s.env["proctable"] = tab
-        trick = tricks.AutoRestartTrick(["srv", "--run"], patterns=["*.py"], kill_after=self.ka,
+        trick = observed_trick_class()(["srv", "--run"], patterns=["*.py"], kill_after=self.ka,
                                         debounce_interval_seconds=self.deb, restart_on_command_exit=self.roce)
         evs = [events.FileModifiedEvent(f"/w/m{k}.py") for k in range(len(self.gaps))]
 
@@ -457,7 +483,7 @@ class ARHarness(C18Harness):
             s.idle("drain", until=s.start_clock + HORIZON)
             L(("quiescent", s.clock) + snapshot())
             do_stop()
-        s.idle("drain", until=s.clock + 1.0)
+        s.idle("drain", until=s.clock + AFTER)
         L(("end", s.clock) + snapshot())
         return True
 
@@ -465,6 +491,7 @@ class ARHarness(C18Harness):
     def check(self, res):
         out = []
         log = res.log
+        n = len(log)
         timed = not self.sched_kwargs.get("timer_deviations", True)
 
         def v(kind, fp, msg):
@@ -475,6 +502,32 @@ class ARHarness(C18Harness):
         quiescent = _first(log, "quiescent")
         first_wait = _first(log, "dwait")
 
+        # ---- context: which calls overlapped (root-cause part of the fingerprints) ---------------------
+        rs, open_rs = [], {}
+        for i, e in enumerate(log):
+            if e[0] == "rs_enter":
+                open_rs[e[2]] = (i, e[1])
+            elif e[0] == "rs_exit" and e[2] in open_rs:
+                st, r = open_rs.pop(e[2])
+                rs.append((st, i, r, e[2]))
+        for tid, (st, r) in open_rs.items():
+            rs.append((st, n, r, tid))
+        stop_overlap = False
+        if stop_call is not None:
+            lo, hi, stid = stop_call, (stop_ret if stop_ret is not None else n), log[stop_call][-1]
+            stop_overlap = any(a < hi and b > lo and tid != stid for a, b, _, tid in rs)
+        pairs = [{x[2], y[2]} for x in rs for y in rs if x[3] != y[3] and x[0] < y[1] and y[0] < x[1]]
+        restart_overlap = bool(pairs)
+        exit_vs_event = any("ProcessWatcher" in p and p & {"observer", "EventDebouncer"} for p in pairs)
+        # root-cause prefix: symptoms seen in an execution with overlapping calls share coarse fingerprints
+        P_RS = "autorestart: overlapping restarts: "
+        ctx = ("autorestart: stop() overlapping a restart in progress: " if stop_overlap
+               else (P_RS if restart_overlap else None))
+
+        def fpx(precise, coarse, only_rs=False):
+            c = (P_RS if restart_overlap else None) if only_rs else ctx
+            return c + coarse if c else "autorestart: " + precise
+
         def classify_deadlock(info, log):
             stuck = any("EventDebouncer.run" in " ".join(st) and str(b).startswith("('cond.wait'") for _, b, st in info)
             in_stop = any("AutoRestartTrick.stop" in " ".join(st) for _, b, st in info)
@@ -484,7 +537,10 @@ class ARHarness(C18Harness):
                         "(deadlock)")
             return None
 
-        self.common(res, out, classify_deadlock)
+        hfp = None
+        if stop_call is not None and stop_ret is None:
+            hfp = fpx("stop() does not return (still blocked at the step/time horizon)", "stop() never returns")
+        self.common(res, out, classify_deadlock, ctx, hfp)
 
         # ---- process-table history ---------------------------------------------------------------
         spawns = []       # dict(pid, i, t, deadline, by, kill_i, kill_t)
@@ -509,17 +565,20 @@ class ARHarness(C18Harness):
         def self_exited(c, t):
             return c["deadline"] is not None and c["deadline"] <= t and (c["kill_t"] is None)
 
+        two = False
         for c in spawns:
             others = [o for o in spawns if alive_at(o, c["i"], c["t"])]
             if others:
                 o = others[-1]
                 pair = {o["by"], c["by"]}
-                if "ProcessWatcher" in pair and pair & {"observer", "EventDebouncer"}:
+                if exit_vs_event:
                     fp = "autorestart: concurrent restarts (self-exit vs event) leave two children alive"
                 else:
-                    fp = f"autorestart: two children alive at once (spawned by {o['by']} and {c['by']})"
+                    fp = fpx(f"two children alive at once (spawned by {' and '.join(sorted(pair))})",
+                             "two children alive at once")
                 v("two-children", fp, f"child {c['pid']} spawned at index {c['i']} (t={c['t']}) by {c['by']} while "
                                       f"child {o['pid']} (spawned by {o['by']}) is alive")
+                two = True
                 break
 
         end_t = START_CLOCK + res.clock
@@ -529,13 +588,13 @@ class ARHarness(C18Harness):
         x_self = sum(1 for c in spawns if self_exited(c, end_t)) if self.roce else 0
         started = _first(log, "start_ret") is not None
         if started and len(spawns) > 1 + n_ev + x_self:
-            v("too-many", "autorestart: more restarts than triggers (events + self-exits)",
+            v("too-many", fpx("more restarts than triggers (events + self-exits)", "more restarts than triggers", True),
               f"{len(spawns)} spawns for {n_ev} events and {x_self} self-exits")
         if started and not spawns:
             v("no-child", "autorestart: start() did not start a child", "no spawn")
 
         # ---- before stop: every trigger restarts ----------------------------------------------------
-        limit = quiescent if quiescent is not None else None
+        limit = quiescent
         if limit is not None and not res.abort:
             plain = not self.deb and not self.roce
             for k, ci in sorted(ev_calls.items()):
@@ -553,45 +612,47 @@ class ARHarness(C18Harness):
                         v("lost-trigger", "autorestart: debounced event handed in before the debouncer's first wait() "
                                           "never restarts the child", f"event {k} was followed by no spawn until quiescence")
                     else:
-                        v("lost-trigger", "autorestart: an event never restarted the child",
+                        v("lost-trigger", fpx("an event never restarted the child", "child not restarted", True),
                           f"event {k} was followed by no spawn until quiescence")
             q = log[quiescent]
             alive_q = q[2]
             if spawns and not alive_q:
                 last = spawns[-1]
                 if last["kill_i"] is not None:
-                    v("no-child", "autorestart: child killed by a restart but no new child started",
+                    v("no-child", fpx("child killed by a restart but no new child started", "child not restarted", True),
                       f"child {last['pid']} was killed at index {last['kill_i']}, no later spawn, nothing runs at quiescence")
                 elif self.roce and timed and last["deadline"] is not None and last["deadline"] <= q[1] - MARGIN:
-                    v("no-child", "autorestart: child exited by itself and was never restarted",
+                    v("no-child", fpx("child exited by itself and was never restarted", "child not restarted", True),
                       f"child {last['pid']} exited at {last['deadline']}, nothing runs at quiescence t={q[1]}")
 
-        # ---- after stop ----------------------------------------------------------------------------
-        if stop_ret is not None:
+        # ---- after stop (consequences of an earlier two-children violation are not reported again) -------
+        if stop_ret is not None and not two:
             e = log[stop_ret]
             alive_s, helpers_s = e[2], e[3]
             late = [c for c in spawns if c["i"] > stop_ret]
-            if late:
-                v("spawn-after-stop", "autorestart: child spawned after stop() returned",
-                  f"child {late[0]['pid']} spawned at index {late[0]['i']} by {late[0]['by']}, stop() returned at {stop_ret}")
-            if alive_s:
-                v("alive-after-stop", "autorestart: child alive when stop() returns",
-                  f"children {alive_s} alive at stop() return")
-            for r, signalled in helpers_s:
-                v("helper-at-stop", f"autorestart: {r} thread still alive when stop() returns "
-                                    f"({'already signalled to stop' if signalled else 'not signalled to stop'})",
-                  f"helpers alive at stop() return: {helpers_s}")
             endi = _first(log, "end")
-            if endi is not None:
-                e = log[endi]
-                if e[2] and not late and not alive_s:
-                    v("alive-at-end", "autorestart: child alive after stop()", f"children {e[2]} alive at the end")
-                elif e[2]:
-                    v("alive-at-end", "autorestart: child still alive 1 s after stop() returned",
-                      f"children {e[2]} alive at the end")
-                for r, signalled in e[3]:
-                    v("helper-at-end", f"autorestart: {r} thread still alive 1 s after stop() returned",
-                      f"helpers alive at the end: {e[3]}")
+            alive_e, helpers_e = (log[endi][2], log[endi][3]) if endi is not None else ((), ())
+            if late:
+                v("spawn-after-stop", fpx("child spawned after stop() returned", "child alive or spawned after stop() returned"),
+                  f"child {late[0]['pid']} spawned at index {late[0]['i']} by {late[0]['by']}, stop() returned at "
+                  f"{stop_ret}; alive at the end: {alive_e}")
+            elif alive_e:
+                v("alive-at-end", fpx("child still alive 1 s after stop() returned", "child alive or spawned after stop() returned"),
+                  f"children {alive_e} alive at the end")
+            elif alive_s:
+                v("alive-after-stop", fpx("child alive when stop() returns", "child alive or spawned after stop() returned"),
+                  f"children {alive_s} alive at stop() return")
+            if helpers_e:
+                for r in sorted({r for r, _ in helpers_e}):
+                    v("helper-at-end", fpx(f"{r} thread still alive 1 s after stop() returned",
+                                           "helper thread alive after stop() returned"),
+                      f"helpers alive at the end: {helpers_e}")
+            else:
+                for r, signalled in sorted(set(helpers_s)):
+                    v("helper-at-stop", fpx(f"{r} thread still alive when stop() returns "
+                                            f"({'already signalled to stop' if signalled else 'not signalled to stop'})",
+                                            "helper thread alive after stop() returned"),
+                      f"helpers alive at stop() return: {helpers_s}")
         return out
 
 
@@ -627,10 +688,12 @@ class SCHarness(C18Harness):
     family = "shellcommand"
     sched_kwargs = dict(max_steps=30000, switch_cost=1, timer_deviations=False)
 
-    def __init__(self, *, wait, drop, durs, gaps):
-        self.wait, self.drop, self.durs, self.gaps = wait, drop, tuple(durs), tuple(gaps)
+    def __init__(self, *, wait, drop, durs, gaps, early=False):
+        self.wait, self.drop, self.durs, self.gaps, self.early = wait, drop, tuple(durs), tuple(gaps), early
         self.name = (f"sc wait={int(wait)} drop={int(drop)} dur={'/'.join(map(str, self.durs))} "
-                     f"ev={','.join(map(str, self.gaps))}")
+                     f"ev={','.join(map(str, self.gaps))}" + (" early-timers" if early else ""))
+        # few threads: preemption bounding; `early`: timers may expire early as a deviation
+        self.sched_kwargs = dict(max_steps=30000, switch_cost=0, timer_deviations=early)
 
     def body(self, s):
         tricks = wd.mod("watchdog.tricks")
@@ -655,7 +718,7 @@ class SCHarness(C18Harness):
         t = T(target=observer, name="observer")
         t.start()
         t.join()
-        s.idle("drain", until=s.start_clock + 10.0)
+        s.idle("drain")     # every command is finite: all watchers end by themselves (else: step horizon)
         L(("end", s.clock, tuple(tab.alive()), tuple(helpers_alive(s))))
         return True
 
@@ -695,7 +758,8 @@ class SCHarness(C18Harness):
                         v("no-wait", f"shellcommand({opt}): dispatch returned before the command ended",
                           f"event {k}: returned at {rt}, command ends at {inside[0]['deadline']}")
                 else:
-                    must = all(c["deadline"] is not None and c["deadline"] <= ct - 0.25 for c in before)
+                    must = (not before) if self.early else all(
+                        c["deadline"] is not None and c["deadline"] <= ct - 0.25 for c in before)
                     if must and len(inside) != 1:
                         v("dropped", "shellcommand(drop): event dropped although no command was running",
                           f"event {k} at t={ct}: earlier commands ended at {[c['deadline'] for c in before]}, "
@@ -714,7 +778,7 @@ class SCHarness(C18Harness):
 def sc_harnesses(tier):
     hs = []
     quick = tier == "quick"
-    G = (0.0, 0.15, 0.3)
+    G = (0.0, 0.15, 0.25, 0.3)
     progs = [(0.0,)] + [(0.0, g) for g in G]
     progs += [(0.0, g, g) for g in G] if quick else [(0.0, g, h) for g in G for h in G]
     for wait, drop in ((True, False), (False, True), (True, True), (False, False)):
@@ -725,6 +789,8 @@ def sc_harnesses(tier):
                 if durs == (0.25, 0.05) and len(p) < 2:
                     continue
                 hs.append(SCHarness(wait=wait, drop=drop, durs=durs, gaps=p))
+                if len(p) <= 2 or not quick:
+                    hs.append(SCHarness(wait=wait, drop=drop, durs=durs, gaps=p, early=True))
     return hs
 
 
@@ -766,20 +832,33 @@ def setup(tier):
     return hs, desc
 
 
+def _deep_quick(h):
+    """The few (b) programs that get deviation bound 2 already in the quick tier."""
+    return (isinstance(h, ARHarness) and not h.ign and h.ka == KA and (
+        (h.roce and not h.deb and h.life == (SHORT, None) and h.gaps == (0.2,) and h.mode == ("quiesce",))
+        or (not h.roce and h.deb and h.life == (None,) and h.gaps == (0.0,) and h.mode[0] == "quiesce")
+        or (not h.roce and not h.deb and h.life == (None,) and h.gaps == (0.0,) and h.mode == ("stopper", 0.0))))
+
+
 def run(ctx):
     hs, ctx.instrumented = setup(ctx.tier)
     quick = ctx.tier == "quick"
     jobs = []
     for h in hs:
         if isinstance(h, DebHarness):
-            b = 2
-            if quick and len(h.gaps) == 3:
-                b = 1
+            b = 1 if quick and len(h.gaps) == 3 else 2
         elif isinstance(h, ARHarness):
-            b = 1
-            if not quick and len(h.gaps) <= 1:
-                b = 2
+            if quick:
+                b = 2 if _deep_quick(h) else 1
+            else:
+                b = 2 if len(h.gaps) <= 1 else 1
         else:
-            b = 1 if quick else 2
+            b = 2 if quick else 3
         jobs.append((h, b))
-    ctx.explore_many(jobs, cap=3_000_000 if quick else 60_000_000)
+    sts = ctx.explore_many(jobs, cap=4_000_000 if quick else 80_000_000)
+    # the runner keeps the first witness per fingerprint; report the one with the fewest deviations instead
+    for st in sts:
+        for fp, v in st.violations.items():
+            old = ctx.violations.get(fp)
+            if old is not None and (v["cost"], len(v["prefix"])) < (old["cost"], len(old["prefix"])):
+                ctx.violations[fp] = v
